@@ -234,6 +234,17 @@ def edge_templates():
             tail.append([ids, ("set", "s", ("call", V("ids"), [sval])), ("set", "r", ("ifset", "x", aty, V("s"), ("block", [("facc", V("x"), "a")]), ("block", [S_("no")]))), V("r")])
             tail.append([("fndecl", "g", [("s", sty)], ANY, [("return", ("match", V("s"), [arm, ("other", ("block", [S_("no")]))]))]), ("call", V("g"), [sval])])
             tail.append([("set", "s", sval), ("set", "r", ("match", V("s"), [arm, ("other", ("block", [S_("no")]))])), V("r")])
+    # every built-in consumer over the EMPTY iterator `[]~` (and over a one-element one) handed over at a static type that is a
+    # UNION of iterator types, or an iterator of a union: the unit / default the consumer makes up must lie in the static type
+    from gen.programs import iter_of as _iter_of
+    for els in ((INT, FLOAT), (FLOAT, STR), (INT, STR), (INT, FLOAT, STR), (BOOL, INT), (STR, arr(INT)), (FLOAT, INT)):
+        for ity in (multi(*[_iter_of(e) for e in els]), _iter_of(multi(*els))):
+            for op in ("sum", "product", "bitand", "bitor", "all", "any", "collect"):
+                empty = ("post", "iter", ("array", []))
+                out.append([("fndecl", "f", [], ity, [("return", empty)]), ("set", "r", ("post", op, ("call", V("f"), []))), V("r")])
+                out.append([("fndecl", "g", [("it", ity)], ANY, [("set", "r", ("post", op, V("it"))), ("return", V("r"))]), ("call", V("g"), [empty])])
+                out.append([("fndecl", "f", [("k", INT)], ity, [("return", ("at", ("array", [empty, empty]), V("k")))]),
+                            ("set", "r", ("post", op, ("call", V("f"), [I(1)]))), V("r")])
     mon = out[MONITOR_ONLY:]
     return out[:MONITOR_ONLY] + tail, mon
 
